@@ -98,8 +98,7 @@ theorem core_layouts_match_named :
   have he' : eraseEntry e ∈ Ref.table := erase_ok ▸ List.mem_map_of_mem he
   have hrow' : eraseRow row ∈ (eraseEntry e).2 := List.mem_map_of_mem hrow
   have hid := (C07.core_rows_match c hc (eraseEntry e) he' hname (eraseRow row) hrow').1
-  have hid' : genId c.2.1 c.2.2 row.1 = some row.2.1 := by
-    simpa [idMatches, eraseRow] using hid
+  have hid' : genId c.2.1 c.2.2 row.1 = some row.2.1 := of_decide_eq_true hid
   -- layouts: every variant
   have hg := checkGenNamed_ok
   simp only [checkGenNamed, List.all_eq_true] at hg
